@@ -1,5 +1,5 @@
 (* C03 - Every produced document is a well-formed docutils tree.
-   Statements only; proofs in Doc/PostProofs.v, TopProofs.v, DecoProofs.v, Final.v.
+   Statements only; proofs in Doc/PostProofs.v, TopProofs.v, DecoProofs.v, Api.v, IdsProofs.v, RefsCompose.v, Final.v.
    Model: identity-labelled trees (Doc/Node.v: every node carries the allocation number of its Python
    object), renderer Doc/Render.v, docutils registries Doc/Registry.v, predicates Doc/WF.v. *)
 From Coq Require Import List NArith Bool.
@@ -15,7 +15,15 @@ From MV Require Import Doc.Transforms.
 From MV Require Import Doc.WF.
 From MV Require Import Doc.Post.
 From MV Require Import Doc.TopProofs.
+From MV Require Import Doc.Api.
+From MV Require Import Doc.IdsProofs.
 From MV Require Import Doc.Final.
+From MV Require Import Refs.RUtil.
+From MV Require Refs.Foot.
+From MV Require Refs.FootProofs.
+From MV Require Refs.Anchors.
+From MV Require Refs.AnchorsProofs.
+From MV Require Doc.RefsCompose.
 Import ListNotations.
 
 (* "each node has exactly one parent and occurs once": no allocation number (= Python object) is reachable
@@ -63,10 +71,24 @@ Theorem C03_rows_match_cols : forall B C OR ts doc ws,
 Proof. exact rows_match_cols. Qed.
 Print Assumptions C03_rows_match_cols.
 
-(* identifiers.  Modelled: docutils' set_id / set_name_id_map / set_duplicate_name_id (Registry.v).
-   PARTIAL: an id that set_id generates for a node was registered for no node before, and is registered
-   for this node afterwards (uniqueness by construction of every generated id); the global statement
-   "NoDup of all ids in the tree" and the resolution of refids are checked by correspondence + search. *)
+(* IDENTIFIERS, globally.  The renderer uses the docutils registry through a fixed interface (Doc/Api.v: api -
+   allocation, set_id via note_explicit_target / note_implicit_target / note_*footnote*, names, warnings, the
+   splice of oracle nodes; build_api: every render program is a program over it).  The registry invariant
+   IdsProofs.ids_inv - an id an object carries is registered for that object in document.ids, and is carried once -
+   is preserved by every operation of the interface except the creation of a node with a preset id.  Hence, for
+   both back ends, every configuration, oracle behaviour and forest of the static grammar (dynamic syntax
+   included: the accepted oracle nodes carry no ids, i.e. the oracle returns fresh nodes) that contains no such
+   node (preset_free: no equation label / numbered amsmath environment under Sphinx): the ids of the rendered
+   document are pairwise distinct. *)
+Theorem C03_ids_unique : forall B C OR ts doc ws,
+  static_forest B C OR ts = true -> forallb (preset_free B) ts = true ->
+  render_doc B C OR ts = Good (doc, ws) -> ids_unique doc = true.
+Proof. exact ids_unique_global. Qed.
+Print Assumptions C03_ids_unique.
+
+(* the named registry fact it rests on (set_id fresh; the same fact for the slug/id allocation of the C05/C10
+   model is Sect/SlugProofs.v): an id that set_id generates for a node was registered for no node before, and is
+   registered for this node afterwards *)
 Theorem C03_ids_unique_partial : forall (make_id : str -> str) (aip : str) o tg f i msgs f',
   nr_ids (get_rec o tg f) = [] ->
   set_id make_id aip o tg f = Good ((i, msgs), f') ->
@@ -83,6 +105,51 @@ Theorem C03_ids_unique_refuted :
     render_doc Sphinx sphinx_cfg dummy_oracles ts = Good (doc, ws) /\ ids_unique doc = false.
 Proof. exact ids_unique_refuted. Qed.
 Print Assumptions C03_ids_unique_refuted.
+
+(* REFID VALUES RESOLVE, for the reference kinds the renderer creates.  The two transforms that write refid
+   attributes are modelled by the C11 builder (Refs/Foot.v: SortFootnotes + docutils Footnotes) and the C09 builder
+   (Refs/Anchors.v: ResolveAnchorIds); the statements below are corollaries of their theorems (Doc/RefsCompose.v),
+   nothing is re-modelled.  (Doc/Transforms.v models the same transforms on the identity-labelled tree; there the
+   clause is evaluated on every transformed document of the correspondence: measured:xform:refids_resolve.)
+   Footnote references: a reference carries a refid only if a kept footnote definition has that id, and that
+   definition lists the reference among its backrefs. *)
+Theorem C03_refids_resolve_footnotes :
+  forall (isdigit : str -> bool) (int_of : str -> option N) (fx : Foot.fstate -> res Foot.fstate),
+  (forall s, fx s = Foot.docutils_footnotes s) ->
+  forall fs ft d r, Foot.run isdigit int_of fx fs ft d = Ok r ->
+  forall o l, In o (Foot.x_refs r) -> Foot.ro_refid o = Some l ->
+  exists f, In f (Foot.x_foots r) /\ FootProofs.lbl f = l /\ In (Foot.ro_idx o) (Foot.fo_backrefs f).
+Proof. exact RefsCompose.footnote_refid_resolves. Qed.
+Print Assumptions C03_refids_resolve_footnotes.
+
+(* '#anchor' links resolved against the explicit targets: the refid is an id registered in document.ids - or, for
+   an indirect target (a target node that itself has a refid), the first NAME of the node that target points to:
+   that is what the code writes (copied from Sphinx' std domain) and it need not be an id. *)
+Theorem C03_refids_resolve_anchors :
+  forall nl sphinx suppressed slug_hash lr rg ex slugs r lid title,
+  NoDup (map fst (Anchors.nametypes rg)) ->
+  Anchors.build_explicit lr rg = Ok ex ->
+  dget ex (Anchors.r_frag r) = Some (lid, title) ->
+  Anchors.o_refid (Anchors.resolve_one nl sphinx suppressed slug_hash ex slugs r) = Some lid /\
+  Anchors.o_warn (Anchors.resolve_one nl sphinx suppressed slug_hash ex slugs r) = [] /\
+  ((exists node, dget (Anchors.ids rg) lid = Some node) \/
+   (exists labelid t rid node rest,
+      dget (Anchors.nameids rg) (Anchors.r_frag r) = Some (Some labelid) /\ dget (Anchors.ids rg) labelid = Some t /\
+      Anchors.n_kind t = Anchors.KTarget /\ Anchors.n_refid t = Some rid /\
+      dget (Anchors.ids rg) rid = Some node /\ Anchors.n_names node = lid :: rest)).
+Proof. exact RefsCompose.anchor_refid_resolves. Qed.
+Print Assumptions C03_refids_resolve_anchors.
+
+(* the only link whose refid may dangle is one that neither table resolves, and it is reported: under Sphinx it
+   becomes a pending_xref without refid, under docutils it carries the system message of exactly one warning *)
+Theorem C03_refids_dangle_only_reported :
+  forall nl sphinx suppressed slug_hash ex slugs r,
+  dget ex (Anchors.r_frag r) = None -> dget slugs (Anchors.r_frag r) = None ->
+  let o := Anchors.resolve_one nl sphinx suppressed slug_hash ex slugs r in
+  (sphinx = true -> Anchors.o_refid o = None /\ Anchors.o_pending o = true) /\
+  (sphinx = false -> suppressed = false -> Anchors.o_msg o = true /\ length (Anchors.o_warn o) = 1%nat).
+Proof. exact RefsCompose.anchor_refid_dangles_only_reported. Qed.
+Print Assumptions C03_refids_dangle_only_reported.
 
 (* non-vacuity: two headings (the second opens a sibling section), a table and a thematic break *)
 Example C03_example :
